@@ -14,7 +14,7 @@
     assume a finite sum. *)
 From Coq Require Import List ZArith Reals Floats Bool.
 From Flocq Require Import Core.
-From Cfr.theories Require Import Num FInst Tree Strat Solve TruncFloat NormFloat.
+From Cfr.theories Require Import Num FInst Tree Strat Solve TruncFloat NormFloat EvalFloat SolveFloat.
 Import ListNotations.
 Local Open Scope R_scope.
 Local Notation float := PrimFloat.float.
@@ -53,6 +53,98 @@ Theorem C05_binary64_no_positive_regret_means_none : forall cum_reg : list float
   ltb FNum (zero FNum) (@sum FNum (filter (fun v => ltb FNum (zero FNum) v) cum_reg)) = false ->
   forall r, In r cum_reg -> FR r <= 0.
 Proof. exact regret_match_float_nopos. Qed.
+
+
+(** ** the whole solve (round 3, [theories/SolveFloat.v]): no NaN and no infinity can arise while the accumulated
+    regret stays within the binary64 range.  For the unsampled and the chance-sampled method (any oracle, any stop
+    predicate), payoffs bounded by a power of two [2^e], chance rows of finite entries in [0,1]: every value returned by
+    a traversal is finite and at most [leaves * 2^e], every cumulative regret moves by at most [rcount * 2^e] per
+    iteration, every accumulated strategy stays finite and non-negative; hence, as long as
+    [reg_cap g T * 2^e < 2^1024] (the explicit form of "2 * D * T * size is within range" — the positive counterpart
+    of the known finding D13, whose overflow the theory file reproduces as an Example), the returned profile consists
+    of finite numbers in [0,1] and the returned bounds are finite and non-negative.  Proved for the vanilla and the
+    CFR+ parameters outright, and for every parameter tuple whose discount factors are numbers in [0,1] and whose
+    fallback is not the softmax (those go through exp/ln, which these theorems do not analyse).
+    External sampling is not covered. *)
+Theorem C05_binary64_traversal_finite : forall (e : Z) (Mx Ms : nat),
+  (-1074 <= e)%Z ->
+  (Z.of_nat Mx < 2 ^ 53)%Z -> INR Mx * bpow radix2 e < bpow radix2 emax ->
+  (Z.of_nat Ms < 2 ^ 53)%Z ->
+  forall (chance : list (list float)) (sampled : bool) (draw : @oracle FNum) (pass : N),
+  TblOK chance ->
+  forall n : @node FNum, PayOK (bpow radix2 e) n ->
+  VPf e Mx Ms (@vrec FNum chance sampled draw pass) n.
+Proof. exact vrec_float_ok. Qed.
+
+Theorem C05_binary64_solve_vanilla_valid :
+  forall (g : @Tree.game FNum) (m : method) (draw : @oracle FNum) (budget : nat)
+         (stop : float -> bool) (e : Z),
+  m <> External ->
+  TblOK (g_chance g) -> arities_small g -> (-1074 <= e)%Z ->
+  PayOK (bpow radix2 e) (g_root g) ->
+  (Z.of_nat budget < 2 ^ 53)%Z ->
+  (Z.of_nat (budget * scount (g_root g)) < 2 ^ 53)%Z ->
+  (Z.of_nat (reg_cap g budget) < 2 ^ 53)%Z ->
+  INR (reg_cap g budget) * bpow radix2 e < bpow radix2 emax ->
+  let res := @solve_single FNum g m draw (@p_vanilla FNum) budget stop in
+  Forall fin01 (fst (fst (fst res))) /\
+  Forall fin01 (snd (fst (fst res))) /\
+  match snd (fst res) with
+  | None => True
+  | Some (r1, r2) =>
+      (Ffin r1 /\ 0 <= FR r1 <= INR (reg_cap g budget) * bpow radix2 e) /\
+      (Ffin r2 /\ 0 <= FR r2 <= INR (reg_cap g budget) * bpow radix2 e)
+  end.
+Proof. exact solve_single_float_valid. Qed.
+
+Theorem C05_binary64_solve_cfr_plus_valid :
+  forall (g : @Tree.game FNum) (m : method) (draw : @oracle FNum) (budget : nat)
+         (stop : float -> bool) (e : Z),
+  m <> External ->
+  TblOK (g_chance g) -> arities_small g -> (-1074 <= e)%Z ->
+  PayOK (bpow radix2 e) (g_root g) ->
+  (Z.of_nat budget + 1 < 2 ^ 53)%Z ->
+  (Z.of_nat (budget * scount (g_root g)) < 2 ^ 53)%Z ->
+  (Z.of_nat (reg_cap g budget) < 2 ^ 53)%Z ->
+  INR (reg_cap g budget) * bpow radix2 e < bpow radix2 emax ->
+  let res := @solve_single FNum g m draw (@p_cfr_plus FNum) budget stop in
+  Forall fin01 (fst (fst (fst res))) /\
+  Forall fin01 (snd (fst (fst res))) /\
+  match snd (fst res) with
+  | None => True
+  | Some (r1, r2) =>
+      (Ffin r1 /\ 0 <= FR r1 <= INR (reg_cap g budget) * bpow radix2 e) /\
+      (Ffin r2 /\ 0 <= FR r2 <= INR (reg_cap g budget) * bpow radix2 e)
+  end.
+Proof. exact solve_single_float_valid_cfr_plus. Qed.
+
+Theorem C05_binary64_solve_any_params_valid :
+  forall (g : @Tree.game FNum) (m : method) (draw : @oracle FNum) (p : @params FNum)
+         (budget : nat) (stop : float -> bool) (e : Z),
+  m <> External ->
+  nosoftmax p ->
+  (forall k : nat, (k < budget)%nat -> disc_ok p (N.of_nat (S k)) (N.of_nat (S k))) ->
+  TblOK (g_chance g) -> arities_small g -> (-1074 <= e)%Z ->
+  PayOK (bpow radix2 e) (g_root g) ->
+  (Z.of_nat budget < 2 ^ 53)%Z ->
+  (Z.of_nat (budget * scount (g_root g)) < 2 ^ 53)%Z ->
+  (Z.of_nat (reg_cap g budget) < 2 ^ 53)%Z ->
+  INR (reg_cap g budget) * bpow radix2 e < bpow radix2 emax ->
+  let res := @solve_single FNum g m draw p budget stop in
+  Forall fin01 (fst (fst (fst res))) /\
+  Forall fin01 (snd (fst (fst res))) /\
+  match snd (fst res) with
+  | None => True
+  | Some (r1, r2) =>
+      (Ffin r1 /\ 0 <= FR r1 <= INR (reg_cap g budget) * bpow radix2 e) /\
+      (Ffin r2 /\ 0 <= FR r2 <= INR (reg_cap g budget) * bpow radix2 e)
+  end.
+Proof. exact solve_single_float_valid_params. Qed.
+
+Print Assumptions C05_binary64_traversal_finite.
+Print Assumptions C05_binary64_solve_vanilla_valid.
+Print Assumptions C05_binary64_solve_cfr_plus_valid.
+Print Assumptions C05_binary64_solve_any_params_valid.
 
 Print Assumptions C05_binary64_returned_rows_valid.
 Print Assumptions C05_binary64_returned_rows_sum.
